@@ -46,4 +46,10 @@ InvMulW600 == (Q(QW) /\ Q(QV)) => Ok(MulWFree600(a, b, QW, QV), QW + (QV * Beta)
 (* q1 = a0*b0, q2 = a1*b1, q3 = a0*b1, q4 = a1*b0 (order of first use in mul) *)
 InvMul700 == (Q(a) /\ Q(b) /\ Q(QW) /\ Q(QV)) => Ok(MulFree700(0, 0, a, b, QW, QV), a + (b * T) + ((QW + QV) * Beta))
 InvMul600 == (Q(a) /\ Q(b) /\ Q(QW) /\ Q(QV)) => Ok(MulFree600(0, 0, a, b, QW, QV), a + (b * T) + ((QW + QV) * Beta))
+(* the same without the final to(): some word of the right class; to() = reduce() is InvRed *)
+Rep(r, v) == IsWord(r) /\ r % P = v % P
+InvMulWRaw700 == (Q(QW) /\ Q(QV)) => Rep(MulWRawFree700(a, b, QW, QV), QW + (QV * Beta))
+InvMulWRaw600 == (Q(QW) /\ Q(QV)) => Rep(MulWRawFree600(a, b, QW, QV), QW + (QV * Beta))
+InvMulRaw700 == (Q(a) /\ Q(b) /\ Q(QW) /\ Q(QV)) => Rep(MulRawFree700(0, 0, a, b, QW, QV), a + (b * T) + ((QW + QV) * Beta))
+InvMulRaw600 == (Q(a) /\ Q(b) /\ Q(QW) /\ Q(QV)) => Rep(MulRawFree600(0, 0, a, b, QW, QV), a + (b * T) + ((QW + QV) * Beta))
 ====
